@@ -3,6 +3,7 @@
 package main
 
 import (
+	"fmt"
 	"net/url"
 	"sync"
 	"testing"
@@ -135,6 +136,21 @@ func init() {
 							obs["loadableAfter"] = again.UpHits > 0
 							obs["falseSuccess"] = r.Status >= 300 && r.Status < 400 && again.UpHits > 0
 						}
+					case "ready_after_ok":
+						// one healthy probe, then the store is gone (every operation fails from now on), then the next probe at once
+						r0 := w.do(vpReq{Target: "/ready"})
+						if r0.Status != 200 {
+							fail = fmt.Sprintf("the healthy probe answered %d", r0.Status)
+							break
+						}
+						w.redis.fault = func(cmd *vpRedisCmd) *vpStoreFault {
+							seen = append(seen, cmd.Op)
+							fired = append(fired, cmd.Op+":outage")
+							pendingFail[cmd.Op+" "+cmd.Key] = true
+							return &vpStoreFault{Kind: "err_before"}
+						}
+						r = w.do(vpReq{Target: "/ready"})
+						disarm()
 					case "ready":
 						arm()
 						r = w.do(vpReq{Target: "/ready"})
